@@ -43,11 +43,11 @@ Clauses(e) ==
  \cup (IF val /\ ~SameOutcome(e.out, e.again) THEN {"C08:not-repeatable"} ELSE {})
  \cup (IF val /\ ~SameOutcome(e.out, e.fresh) THEN {"C13:differs-from-fresh-element"} ELSE {})
  \cup (IF ~val /\ ~HeapSame(Expected(e), e.post) THEN {"C13:reconfiguration-not-applied"} ELSE {})
- \cup (IF e.x = "D" /\ ~ElemSame(e.pre["C"], e.post["C"]) THEN {"C15:parent-changed"} ELSE {})
- \cup (IF e.x = "D" /\ ~f.parentObsSame THEN {"C15:parent-behaviour-changed"} ELSE {})
- \cup (IF e.x = "D" /\ val /\ ~f.instanceOfParent THEN {"C15:not-instance-of-parent"} ELSE {})
- \cup (IF e.x = "D" /\ val /\ ~SameOutcome(e.out, e.flat) THEN {"C15:child-differs-from-flat-class"} ELSE {})
- \cup (IF e.x = "D" /\ val /\ ~f.flatJsonSame THEN {"C15:child-serializes-unlike-flat-class"} ELSE {})
+ \cup (IF e.x \in {"D", "F"} /\ ~ElemSame(e.pre["C"], e.post["C"]) THEN {"C15:parent-changed"} ELSE {})
+ \cup (IF e.x \in {"D", "F"} /\ ~f.parentObsSame THEN {"C15:parent-behaviour-changed"} ELSE {})
+ \cup (IF e.x \in {"D", "F"} /\ val /\ ~f.instanceOfParent THEN {"C15:not-instance-of-parent"} ELSE {})
+ \cup (IF e.x \in {"D", "F"} /\ val /\ ~SameOutcome(e.out, e.flat) THEN {"C15:child-differs-from-flat-class"} ELSE {})
+ \cup (IF e.x \in {"D", "F"} /\ val /\ ~f.flatJsonSame THEN {"C15:child-serializes-unlike-flat-class"} ELSE {})
 
 (* the subclass event: the child's configuration is the merge *)
 SubclassOK(e) == ElemSame(e.child, Merge(e.parent, e.child.name, e.dkw, e.dprops))
